@@ -39,6 +39,20 @@ SPECS = [
          raises={'*': {'ensures': ["raised('e1') or raised('e2') or raised('e3') or raised('e4') or "
                                    "raised('h1')"]}},
          serves=PROP + ["C05"]),
+    dict(id='S-Define-tuple',
+         # several names bound by ONE clause: each is restored to its OWN outer binding
+         text='A<div tal:define="(a, b) e5">%s</div>B' % H1,
+         own_names=['a', 'b'],
+         ensures=[
+             "trace('e5', 'h1')",
+             "S() == S0() + 'A<div>' + out(1) + '</div>B'",
+             "visible('a') is visible0('a')", "visible('b') is visible0('b')",
+             "scope_frame('a', 'b')",
+         ],
+         # the value is not a pair: the element is not entered
+         raises={'*': {'ensures': ["True"]}, 'TypeError': {'ensures': ["holes(1) == 0"]},
+                 'ValueError': {'ensures': ["holes(1) == 0"]}},
+         serves=PROP + ["C05"]),
     dict(id='S-Condition', text='A<div tal:condition="e3">%s</div>B' % H1,
          ensures=[
              "evals(3) == 1",
